@@ -7,6 +7,10 @@ TECH_A = "bounded symbolic execution of the real Python code (CrossHair 0.0.110 
 TECH_B = "; plus direct z3 obligations generated from the live source/AST (unbounded in the stated dimension)"
 
 CLAIMED = {
+    "C06": dict(
+        text="Bounded symbolic model checking of the comparison table: both comparands are solver variables of every JSON kind (all 8x8 kind pairs incl. 'nothing'; unbounded ints, real-valued floats, strings over all code points, arrays/objects of symbolic scalars, depth-2 nests), the real _compare/_eq/_lt and the real find() path (literal, relative/absolute singular query, value()/length() results, missing members) are executed over all paths for all six operators and compared with a reference written from RFC 9535 section 2.3.5.2.2.",
+        note="Trusted: CrossHair value models (floats modelled as reals, exact for ==/< because CPython compares int/float by exact value), z3, the reference table (self-tested against the expectations in tests/test_compare.py and tests/test_ietf_comparison.py). Bounds: strings <=2 (3 thorough) chars, containers <=2 entries (1 when both sides are containers), element ints within +/-1000, object member names drawn from a 3-name alphabet.",
+        tech=TECH_A, design="§4 C06"),
     "C07": dict(
         text="Bounded symbolic model checking: for arrays up to the stated length every integer parameter (index, start, end, step, each present or omitted, any value in +/-(2^53-1)) is a z3 variable and the real selector code is executed over all paths and compared with the RFC 9535 procedure; bounds arithmetic and range guards are additionally proved for every array length and every integer by z3 from the source. Right level: the property is pure integer/array arithmetic, exactly where a solver covers what sampling cannot.",
         note="Trusted: CrossHair's int/list models, z3, the Python-level model of slice.indices/list subscript (validated against the real builtins on a grid each run), the RFC reference procedure in vtools/ref/slices.py (self-tested against the RFC table and Python slicing). Array length <= 4 (quick) / 6 (thorough) for the executed part.",
